@@ -2,7 +2,7 @@
 Theorems: lean/RuschmProofs/C02.lean (apply_procedure activations are balanced, the trampoline and
 apply do not nest, tail position passes through if arms and through the expansions of the derived
 forms regenerated from grammar.sld, the counting loop runs at a depth independent of N).
-Tie: loops whose tail call sits in every composition (depth 2; thorough 3) of the 16 tail contexts,
+Tie: loops whose tail call sits in every composition (depth 2; thorough 3) of the 18 tail contexts,
 in 5 loop shapes, at two iteration counts, on the real interpreter (a host procedure `tick` called
 once per iteration records the address of a local = real stack depth, and the live heap bytes of a
 counting allocator) and on the model (maximum nesting of apply_procedure activations). Oracle on the
@@ -31,10 +31,19 @@ CONTEXTS = {
     "or-last": "(or #f %s)",
     "when-last": "(when #t 0 %s)",
     "unless-last": "(unless #f %s)",
+    # bodies that BEGIN with internal definitions: their last expression is still in tail position
+    "thunk-body-after-define": "((lambda () (define j 1) %s))",
+    "let-body-after-define": "(let ((j 1)) (define jj (+ j 1)) jj %s)",
 }
 
 SHAPES = {
     "self": (["(define (loop n acc) (tick n) (if (= n 0) acc CTX))"], "(loop (- n 1) (+ acc 1))", "(loop %d 0)"),
+    "self-internal-define": (["(define (loop n acc) (define step 1) (define acc2 (+ acc step)) (tick n) (if (= n 0) acc CTX))"],
+                             "(loop (- n step) acc2)", "(loop %d 0)"),
+    # the body defines an internal PROCEDURE: stack must stay flat; the live heap grows (frame -> closure -> frame is an Rc
+    # cycle that is never reclaimed) - recorded as the open finding `closure-frame-cycle`, reported as KNOWN-FINDING
+    "self-internal-procedure": (["(define (loop n acc) (define (dec k) (- k 1)) (tick n) (if (= n 0) acc CTX))"],
+                                "(loop (dec n) (+ acc 1))", "(loop %d 0)"),
     "mutual": (["(define (ev n acc) (tick n) (if (= n 0) acc CTXA))", "(define (od n acc) (tick n) (if (= n 0) acc CTXB))"],
                None, "(ev %d 0)"),
     "parameter": (["(define (loop f n acc) (tick n) (if (= n 0) acc CTX))"], "(f f (- n 1) (+ acc 1))", "(loop loop %d 0)"),
@@ -94,6 +103,8 @@ def run(rep, tier, rng):
     impl = C.run_hx(cases)
     model = C.run_driver(cases)
     depth_at = {}
+    cycle_known = any(k.get("status") == "open" and k.get("id") == "closure-frame-cycle" for k in C.known_findings(PROP))
+    cycle_seen = []
     for cid, _, fields in cases:
         shape, ctxs, n = meta[cid]
         a, b = impl.get(cid), model.get(cid)
@@ -122,7 +133,12 @@ def run(rep, tier, rng):
                            "shape": shape, "contexts": ctxs, "iterations": n, "program": fields, "stack_offsets": ax.get("S")})
             continue
         h = kv(ax.get("H", ""))
-        if int(h.get("last", 0)) - int(h.get("mid", 0)) > 4096:
+        if int(h.get("last", 0)) - int(h.get("mid", 0)) > 4096 and shape == "self-internal-procedure" and cycle_known:
+            if not cycle_seen:
+                cycle_seen.append(1)
+                rep.known("closure-frame-cycle: a loop whose body defines an internal procedure leaks one frame per iteration "
+                          "(the frame holds the closure, the closure holds the frame: an Rc cycle) - live heap %s for %s" % (ax.get("H"), fields[-1]))
+        elif int(h.get("last", 0)) - int(h.get("mid", 0)) > 4096:
             rep.violation({"what": "live heap grows with the iteration count in a loop of tail calls",
                            "shape": shape, "contexts": ctxs, "iterations": n, "program": fields, "heap": ax.get("H")})
             continue
@@ -144,8 +160,8 @@ def run(rep, tier, rng):
 def main(tier, seed):
     rep = C.Report(PROP, tier, seed)
     rng = random.Random(seed)
-    rep.cov["rule"] = ("loops whose tail call sits in a composition of the 16 tail contexts (all single contexts, pairs sampled "
-                       "in quick / all pairs and sampled triples in thorough) x 8 loop shapes (self, mutual, through a procedure "
+    rep.cov["rule"] = ("loops whose tail call sits in a composition of the 18 tail contexts (the 16 of the derived forms and two bodies that begin with internal definitions) (all single contexts, pairs sampled "
+                       "in quick / all pairs and sampled triples in thorough) x 10 loop shapes (self, self with internal value definitions, self with an internal procedure definition, mutual, through a procedure "
                        "parameter, variadic, apply in its 2-argument, leading-argument, rest-forwarding and empty-tail forms) x 2 iteration counts; distinct = (shape, contexts, count)")
     rep.assumptions = ["real stack depth is the address of a local of the host procedure tick; live heap is a counting global allocator; "
                        "that activation depth bounds machine stack is measured here, not proved"]
